@@ -23,11 +23,13 @@ vars == <<cfg, plan>>
 \* axes argument: None, the EMPTY subset (written <<-99>> here because None is <<>>: nothing is transformed, the call is
 \* the identity up to the centred resize), or every way of writing a non-empty subset with non-negative / negative indices
 EmptyAxes == <<-99>>
-AxesChoices(r) ==
-  {None, EmptyAxes} \cup
+AscendingAxes(r) ==
   {SelectSeq([d \in 1..r |-> f[d]], LAMBDA a : a # 99) : f \in {g \in [1..r -> {99} \cup ((0 - r)..(r - 1))] :
         /\ \E d \in 1..r : g[d] # 99
         /\ \A d \in 1..r : g[d] # 99 => g[d] % r = d - 1}}
+RevSeq(s) == [i \in 1..Len(s) |-> s[Len(s) + 1 - i]]
+\* ... in ascending order of the axes and (for two or more axes) in descending order: the transform does not depend on it
+AxesChoices(r) == {None, EmptyAxes} \cup AscendingAxes(r) \cup {RevSeq(s) : s \in {t \in AscendingAxes(r) : Len(t) >= 2}}
 AxSetOf(axes, r) == IF axes = None THEN 0..(r - 1) ELSE IF axes = EmptyAxes THEN {} ELSE {axes[i] % r : i \in 1..Len(axes)}
 
 Exponent(m, c, sgn, k, n) == (sgn * (k - c) * (n - c)) % m
